@@ -7,8 +7,28 @@ Local Open Scope Z_scope.
 Definition res_code (r : res) : Z :=
   match r with ROk => 0 | ROom => 1 | RInvalidSize => 2 | RTypeErr => 3 | RPanic => 5 | RAbort => 6 end.
 
-Inductive hop := OArray (esz : N) | OVecPush | OVecReserve | OManual | OBytes | ORepeat (slen : N) | OPad (slen : N)
+Inductive hop := OArray (esz : N) | OVecPush (esz : N) | OVecReserve (esz : N) | OManual | OManualReuse | OBytes
+               | ORepeat (slen : N) | OPad (schars sbytes pb : N)
                | OConcatDouble (slen : N).
+
+(* a = alloc(n); free(a); b = alloc(n); c = alloc(n): the second allocation reuses the freed slot of the first *)
+Definition manual_reuse (m : mem) (n : Z) : res * mem :=
+  match op_manual m n with
+  | (ROk, m1, _) =>
+      let m2 := op_manual_free m1 (Z.to_N n * SZ_VALUE) in
+      match op_manual m2 n with
+      | (ROk, m3, _) => let '(r, m4, _) := op_manual m3 n in (r, m4)
+      | (r, m3, _) => (r, m3)
+      end
+  | (r, m1, _) => (r, m1)
+  end.
+(* n pushes with the count in N (up to a few million for Vec<Bool> near the limit): positive-recursion iterator *)
+Definition push_many_n (n : N) (cap : N) (m : mem) (v : vecst) : res * mem * vecst :=
+  N.iter n (fun st => let '(r, m', v') := st in
+                      match r with
+                      | ROk => let '(r2, m2, v2, _) := op_vec_push cap m' v' in (r2, m2, v2)
+                      | _ => st
+                      end) (ROk, m, v).
 
 (* one case: operation, size argument, limit, host capacity, heap + manual bytes in use when the operation starts.
    Result: [kind; bytes charged by the operation] *)
@@ -17,12 +37,13 @@ Definition hl_run1 (cap : N) (o : hop) (n : Z) (limit used0 : N) : list Z :=
   let out (r : res) (m' : mem) := [res_code r; Z.of_N (held m') - Z.of_N (held m)] in
   match o with
   | OArray e => let '(r, m', _) := op_array cap e m n in out r m'
-  | OVecPush => let '(r, m', _) := push_many (Z.to_nat n) cap m (mkVec 1 1 (SZ_VEC + 8)) in out r m'
-  | OVecReserve => let '(r, m', _, _) := op_vec_reserve cap m (mkVec 1 1 (SZ_VEC + 8)) n in out r m'
+  | OVecPush e => let '(r, m', _) := push_many_n (Z.to_N n) cap m (mkVec 1 1 (SZ_VEC + e) e) in out r m'
+  | OVecReserve e => let '(r, m', _, _) := op_vec_reserve cap m (mkVec 1 1 (SZ_VEC + e) e) n in out r m'
   | OManual => let '(r, m', _) := op_manual m n in out r m'
+  | OManualReuse => let '(r, m') := manual_reuse m n in out r m'
   | OBytes => let '(r, m', _) := op_bytes cap m n in out r m'
   | ORepeat sl => if n =? 1 then [0; 0] else let '(r, m', _) := op_repeat cap m sl n in out r m'
-  | OPad sl => let '(r, m', _) := op_pad cap m sl n in out r m'
+  | OPad sc sb pb => let '(r, m', _) := op_pad cap m sc sb pb n in out r m'
   | OConcatDouble sl => let '(r, m') := concat_double (Z.to_nat n) m sl in out r m'
   end.
 
